@@ -41,6 +41,16 @@ ENCRYPT_Q = R("encrypt_q", "encrypt_q.cfg", expect_ops=["encrypt_subject", "decr
 DECODE_Q = R("decode_q", "decode_q.cfg", expect_ops=["decode_wire", "encode_decode"], expect_out=["decode_wire:ok", "decode_wire:err"])
 DECODE_T = R("decode_t", "decode_t.cfg", expect_ops=["decode_wire"], timeout=3000)
 
+SIG_Q = R("sig_q", "sig_q.cfg", rounds=3, expect_ops=["add_signature", "sign", "forge_signed", "obs_verify", "elide_set"])
+RECIPIENT_Q = R("recipient_q", "recipient_q.cfg", rounds=4, expect_ops=["encrypt_subject_to_recipients", "encrypt_to_recipient", "seal", "unseal", "add_recipient", "share_with", "decrypt_subject_to_recipient", "decrypt_to_recipient"],
+                expect_out=["decrypt_subject_to_recipient:ok", "decrypt_subject_to_recipient:err", "unseal:ok", "unseal:err"])
+SSKR_Q = R("sskr_q", "sskr_q.cfg", expect_ops=["sskr_split_join"], expect_out=["sskr_split_join:ok", "sskr_split_join:err"])
+SSKR_MIX_Q = R("sskr_mix_q", "sskr_mix_q.cfg", expect_ops=["sskr_split_pick", "sskr_pick_more", "sskr_join"], expect_out=["sskr_join:ok", "sskr_join:err"])
+PROOF_Q = R("proof_q", "proof_q.cfg", expect_ops=["proof_contains_set", "obs_confirm"], expect_out=["proof_contains_set:ok", "proof_contains_set:err"])
+ATTACH_Q = R("attach_q", "attach_q.cfg", expect_ops=["add_attachment", "add_bad_attachment", "add_type", "obs_types", "obs_attachments"])
+SALT_Q = R("salt_q", "salt_q.cfg", rounds=3, expect_ops=["add_salt", "add_salt_with_len", "add_salt_in_range", "add_assertion_salted", "add_assertion_envelope_salted", "obs_lookup"],
+           expect_out=["add_salt_with_len:err", "add_salt_in_range:err"])
+
 PLAN = {
     "C01": dict(
         rule="every transition TLC explores in the bounded machine (all call sequences up to the depth bound over the listed action families, 2 registers, atoms a1,a2 + known value 1, plus every clear shape of <= 5 elements as input to the obscuring calls) is executed against the real library in several concretisation rounds (atoms -> typed values of every leaf CBOR type); the digest of the result and of every element of it must equal SHA-256 evaluated from the specification's digest term. non-trivial = distinct (call, expected result) pairs whose result has >= 2 elements or is an error",
@@ -95,5 +105,29 @@ PLAN = {
         rule="wire terms: the encoding of every shape (<= 5 elements, node-subject nodes, decorated assertions, nodes with 2-3 assertions, tagged-known-value leaves) and of its obscured variants, mutated at one position (reorder / duplicate assertion elements, drop all assertions, non-assertion in an assertion slot, unknown tag, leaf<->envelope retag, legacy leaf tag, digest one byte short/long, 0- or 2-entry assertion map, encrypted/compressed without digest or with a surplus element, non-minimal head, indefinite length, float/text/negative/bool in an element position); thorough: two positions. Each evaluated to bytes and given to the real decoder; the specification's decoder says accept (and what) or reject",
         quick=[DECODE_Q],
         thorough=[DECODE_Q, DECODE_T],
+    ),
+    "C09": dict(
+        rule="subjects (leaf, wrapped, node) x signers {s1,s2} (scheme per chain: Schnorr, ECDSA, Ed25519, SSH-Ed25519, ML-DSA44) with/without metadata x then another signature / a forged 'signed' assertion of 8 kinds / elision of any part / another assertion x has_signature_from, verify_signature_from, verify, *_returning_metadata for every key list of length 1-2 and threshold none, 1..n+1",
+        quick=[SIG_Q],
+    ),
+    "C10": dict(
+        rule="shapes x recipient lists of length 1-2 over {r1,r2} (X25519 / ML-KEM512 / ML-KEM768 per chain, duplicates allowed) x {encrypt_subject_to_recipients, encrypt_to_recipient, seal} then add_recipient / re-sharing by an existing recipient / another assertion, then decrypt_subject_to_recipient / decrypt_to_recipient / unseal with each private key and sender",
+        quick=[RECIPIENT_Q],
+    ),
+    "C11": dict(
+        rule="every SSKR policy with <= 2 groups of <= 3 members (78 policies) x every subset of the generated shares x shapes; shares of two splits mixed in registers (same key / different key / decrypted copy)",
+        quick=[SSKR_Q, SSKR_MIX_Q],
+    ),
+    "C12": dict(
+        rule="shapes (<= 3 elements, nodes of 5 incl. two-assertion nodes; repeated atoms give multi-position targets) x every target set of <= 2 digests incl. an absent one x proof_contains_set/target, then every ordered register pair (root, proof) - own proofs, proofs of other envelopes, further elided proofs - x target sets from both: confirm_contains_set/target by a verifier holding only the elided root",
+        quick=[PROOF_Q],
+    ),
+    "C17": dict(
+        rule="direction A: add_salt / add_salt_with_len(0,7,8,20) / add_salt_in_range / add_assertion(_envelope)_salted on shapes, then a second salting or predicate lookups; the salt leaf must parse as Salt (>= 8 bytes). direction B (trace): see saltsize run",
+        quick=[SALT_Q],
+    ),
+    "C19": dict(
+        rule="bases x multisets of <= 2 attachments (payload = any register, vendors v1,v2, conformsTo absent/c1/c2) and malformed attachment assertions of 6 kinds, types over known values and strings; all 12 (vendor, conformsTo) filter combinations in list and single-result form, payload/vendor/conformsTo of every returned attachment, types()/has_type/check_type/get_type",
+        quick=[ATTACH_Q],
     ),
 }
